@@ -224,7 +224,9 @@ pub fn run(ctx: &mut Ctx, replay: Option<&[String]>) {
         let roots: Vec<(Node, String)> = (0..h.num_rows()).map(|i| (Node::Row(i), format!("r{}", i)))
             .chain((0..h.num_cols()).map(|i| (Node::Col(i), format!("c{}", i)))).collect();
         for (root, name) in roots {
-            let max = match rng.below(4) { 0 => None, 1 => Some(rng.below(15)), 2 => Some(2 * rng.range(1, 6)), _ => None };
+            // bounds: none, small (incl. exactly the girth), and astronomically large ones (2^32 + small, usize::MAX - small: "no bound" in practice)
+            let max = match rng.below(6) { 0 => None, 1 => Some(rng.below(15)), 2 => Some(2 * rng.range(1, 6)),
+                3 => Some((1usize << 32) + rng.below(12)), 4 => Some(usize::MAX - rng.below(3)), _ => None };
             let o = one(&h, root, max);
             let lg = o.split(' ').nth(2).unwrap_or("").to_string();
             let t2 = if lg == "none" { "local-girth-none" } else { "local-girth-some" };
